@@ -101,7 +101,7 @@ func safeClean(s string) (out string, panicked any) {
 }
 
 func checkC17(r *Run) {
-	pre, suf := pick(r, 4, 5), pick(r, 3, 4)
+	pre, suf := pick(r, 4, 5), pick(r, 3, 5)
 	gen := fmt.Sprintf("---- MODULE Gen_Clean ----\nGenAlphabet == %s\nGenPrefixLen == %d\nGenSuffixLen == %d\n====\n", tlaCharSet(cleanAlphabet), pre, suf)
 	var pairs, nontrivial atomic.Int64
 	res := r.runTLC(tlcOpts{
@@ -274,7 +274,7 @@ func substitute(pat string, vals []string) string {
 }
 
 func checkC10(r *Run) {
-	pre, suf := 3, pick(r, 3, 4)
+	pre, suf := pick(r, 3, 4), pick(r, 3, 4)
 	gen := fmt.Sprintf(`---- MODULE Gen_Pattern ----
 GenAlphabet == %s
 GenPrefixLen == %d
